@@ -9,7 +9,10 @@ TEXT = {
  'C06': ('Rocq theorems about the executable word-level model of the Huffman container: optimal code lengths for every count profile; create_from builds correct prefix-free tables for every statistics; encoder, bit iterator and decoder exact at every alignment; RegionOK instance (round trip, append-only, clear, merge, refusal) under the single hypothesis that merged code lengths are at most 57 bits; + correspondence of the model with the crate (bit ranges, decoded symbols, refusals, cost) in two build profiles',
          'hypothesis mergeable: code lengths <= 57 bits (the u64 encoder register; the crate concedes it); statistics counts < 2^63',
          'Rocq proof (word-level model, RegionOK instance) + model/impl differential'),
- 'C01': ('generic contract theorems (push_ok + per-combinator RegionOK instances = induction over all compositions, all values, all histories) + correspondence of the executable model with the crate on a 51-entry typed catalogue in two build profiles; catalogue_full: every catalogue entry (bar D8 and collapse-over-f64) provably meets the contract',
+ 'C13': ('Rocq theorems about slice and row read items in both representations: every accessor (len, is_empty, get, iteration, owned conversion) denotes the item\'s own elements, get(k) panics for every k >= len, and the slice iterators are exact-size state machines (the hint before every next is the number of items left) + correspondence on all positions 0..len+2 and usize::MAX-5..usize::MAX, ExactSizeIterator::len asked before every next',
+         'defect D10 (slice iterators with the default size_hint) repaired by a fix: commit',
+         'Rocq proof (read-item layer) + model/impl differential'),
+ 'C01': ('generic contract theorems (push_ok + per-combinator RegionOK instances = induction over all compositions, all values, all histories) + correspondence of the executable model with the crate on a 58-entry typed catalogue in two build profiles (tuple regions of arity 3 and 5 included: proved isomorphic to the nested pairs they are run as); catalogue_full: every catalogue entry (bar D8 and collapse-over-f64) provably meets the contract',
          'theorem over any region meeting RegionOK; D8 composition class excluded (Dense) and reported as known finding; floats under CollapseSequence up to IEEE ==',
          'Rocq contract proof + model/impl differential'),
 }
